@@ -10,19 +10,91 @@ RULE = ('seeded charts on a queued host driven by histories of defer/recall/post
         'plus handlers that defer the event being processed or call recall (bounded fire counts), including recall on an '
         'empty defer queue; oracle: a two-deque model - recall moves the oldest deferred event to the back of the queue '
         'and returns it, or returns None and changes nothing; a deferred event is never dispatched before its recall; '
-        'queue and deferred-queue contents match the model after every op; a small-capacity stratum (2-4) fills the deferred queue and checks only that a deferred, not yet recalled event is never dispatched and that recall returns the oldest deferred event still held. Non-trivial = a recall with >= 1 deferred '
+        'queue and deferred-queue contents match the model after every op; a small-capacity stratum (2-4) fills the deferred queue and checks only that a deferred, not yet recalled event is never dispatched and that recall returns the oldest deferred event still held. A third stratum hosts the chart on an active object whose handlers defer posted events and the ticks of timed sources and recall on another signal while sources are cancelled or finish (recall must still hand back the oldest deferred event). Non-trivial = a recall with >= 1 deferred '
         'event, or a defer made by a handler; distinct = distinct (op, deferred count, queue length) tuples.')
 ASSUMPTIONS = ['no schedule dimension']
-PROBES = ['defer_on_full_deferred_queue']
+PROBES = ['defer_on_full_deferred_queue', 'recall_in_active_object']
 PLAN = {
-  'quick': {'strata': {'defer-recall': 8000, 'small-capacity': 5000}, 'wall_s': 300, 'chunk': 100, 'min_conclusive': 1000},
-  'thorough': {'strata': {'defer-recall': 120000, 'small-capacity': 60000}, 'wall_s': 900, 'chunk': 250, 'min_conclusive': 1000},
+  'quick': {'strata': {'defer-recall': 8000, 'small-capacity': 5000, 'active-object': 1200}, 'wall_s': 300, 'chunk': 100, 'min_conclusive': 1000},
+  'thorough': {'strata': {'defer-recall': 120000, 'small-capacity': 60000, 'active-object': 30000}, 'wall_s': 900, 'chunk': 250, 'min_conclusive': 1000},
 }
 ORACLES = [lambda run, res: co.check_queue_order(run, res, want=('C15',))]
 
 
+def generate_ao(rng):
+  # an active object whose handlers set aside what they are given (posted events and the ticks of timed sources) and
+  # recall on another signal, while sources are cancelled, finish, or the object is stopped: none of that touches what
+  # is deferred - recall still hands back the oldest one
+  from worlds import ao as aw, common
+  objs = aw.default_objects(1, spied=rng.random() < 0.7)
+  p = rng.choice([0.05, 0.1])
+  react = {'SA': [{'op': 'defer', 'id': 50, 'max': rng.choice([2, 4, 100])}], 'SB': [{'op': 'recall', 'id': 51, 'max': 100}],
+           'TA': [{'op': 'defer', 'id': 52, 'max': rng.choice([1, 3, 100])}]}
+  if rng.random() < 0.5:
+    react['TB'] = [{'op': 'defer', 'id': 53, 'max': 3}]
+  objs[0]['react'] = react
+  c0 = [['start', 0]]
+  slot = 0
+  for _ in range(rng.randrange(3, 12)):
+    k = rng.choices(['SA', 'timed', 'SB', 'sleep', 'cancel', 'cancel_id'], weights=[4, 2, 3, 3, 2, 1])[0]
+    if k == 'SA':
+      c0.append([rng.choice(['post_fifo', 'post_fifo', 'post_lifo']), 0, 'SA'])
+    elif k == 'SB':
+      c0.append(['post_fifo', 0, 'SB'])
+    elif k == 'timed':
+      c0.append(['timed', 0, rng.choice(['fifo', 'lifo']), rng.choice(['TA', 'TA', 'TB']), p, rng.choice([0, 2, 3]), rng.choice([True, False]), slot])
+      slot += 1
+    elif k == 'sleep':
+      c0.append(['sleep', p * rng.choice([0.5, 1, 2.5])])
+    elif k == 'cancel':
+      c0.append(['cancel_events', 0, rng.choice(['TA', 'TB']), rng.choice(['same', 'fresh'])])
+    elif slot:
+      c0.append(['cancel_event', 0, 0, rng.randrange(slot), 'same'])
+  c0 += [['sleep', p], ['cancel_events', 0, 'TA', 'fresh'], ['cancel_events', 0, 'TB', 'fresh'], ['sleep', p]]
+  c0 += [['post_fifo', 0, 'SB'] for _ in range(rng.randrange(2, 6))]
+  if rng.random() < 0.3:
+    c0.insert(len(c0) - 2, ['stop', 0])
+  total = sum(o[1] for o in c0 if o[0] == 'sleep')
+  return {'world': 'ao', 'objects': objs, 'queue_size': 500, 'clients': [c0], 'horizon_s': total + 1.0,
+          'sched': common.draw_sched(rng, grans=('sync', 'line'), expected_steps=2500, victims=['consumer'], policies=('sticky', 'pct', 'starve'))}
+
+
+def execute_ao(sc, sched):
+  from worlds import ao as aw, common
+  from checks import ao_common as ac
+  from sim.runner import RunResult
+  res = RunResult()
+  run, sim, reason = aw.run_ao(sc, sched, max_steps=400000, horizon_s=sc.get('horizon_s'))
+  try:
+    if ac.base_judge(run, sim, reason, res):
+      held = []
+      for i, (what, oi, uid, seq) in enumerate(run.deferlog):
+        if what == 'defer':
+          held.append(uid)
+        else:
+          want = held.pop(0) if held else None
+          if uid != want:
+            res.violate('recall-return', {'want_none': want is None, 'host': 'active-object'},
+                        'recall #%d made by a handler of the active object returned %r, the oldest deferred event was %r (deferred and not yet recalled, oldest first: %s)\nlog: %s' % (
+                          i, uid, want, [want] + held if want is not None else held, [(w, u) for w, _, u, _ in run.deferlog[:i + 1]]))
+            break
+          if uid is not None and held.count(uid) == 0 and res.outcome == 'ok':
+            pass
+      nrec = sum(1 for r in run.deferlog if r[0] == 'recall' and r[2] is not None)
+      if nrec:
+        sim.probe('recall_in_active_object')
+        res.nontrivial.append(hash(('ao', min(nrec, 6), len(run.sources), len(run.cancels), sim.switch_signature())))
+    if res.outcome == 'violation' or sched.get('seed', 0) % 499 == 0:
+      res.sample = {'world': 'active object', 'client': sc['clients'][0], 'defer_log': [(w, u) for w, _, u, _ in run.deferlog[:20]]}
+  finally:
+    common.finish(sim, res)
+  return res
+
+
 def generate(seed, stratum, tier):
   rng = random.Random(seed)
+  if stratum == 'active-object':
+    return generate_ao(rng)
   if stratum == 'small-capacity':
     kw = {'fx_rate': rng.choice([0.0, 0.3]), 'fx_ops': ('defer', 'post_fifo'), 'nstates': rng.randrange(1, 5)}
     sc = cc.gen_chart_scenario(rng, combos=[('queued', 'closure'), ('queued', 'closure-spied')], spec_kw=kw,
@@ -35,7 +107,15 @@ def generate(seed, stratum, tier):
                                weights=(4, 4, 2, 1, 4, 1), nops=(5, 40))
 
 
-shrink_candidates = cc.shrink_chart
+def shrink_candidates(sc):
+  if sc.get('world') == 'ao':
+    s_ = sc['clients'][0]
+    for j in range(len(s_) - 1, -1, -1):
+      if s_[j][0] != 'start':
+        yield dict(sc, clients=[s_[:j] + s_[j + 1:]])
+    return
+  for c in cc.shrink_chart(sc):
+    yield c
 
 
 def collect(run, res):
@@ -53,6 +133,8 @@ def collect(run, res):
 
 
 def execute(sc, sched):
+  if sc.get('world') == 'ao':
+    return execute_ao(sc, sched)
   if sc.get('queue_size'):
     # overflow of the (deferred) queue: which event is displaced is not constrained, so the exact
     # deque model is not used here - only the hold-back rule and recall's return value
